@@ -52,8 +52,24 @@ theorem PStream.getLine_cases (s : PStream) :
         left; refine ⟨l, ?_⟩
         split <;> simp_all
 
+/-- what `Parser::get_line` makes of the line the stream returned: only the last line of a text whose final
+    newline is missing comes as `.none`, and it is handed on as an `.lf` line -/
+def fixNl (l : Line) : Line := if l.newline = .none then { l with newline := .lf } else l
+
+theorem fixNl_content (l : Line) : (fixNl l).content = l.content := by
+  unfold fixNl; split <;> rfl
+
+theorem fixNl_ne_none (l : Line) : (fixNl l).newline ≠ .none := by
+  unfold fixNl; split
+  · simp
+  · assumption
+
+theorem fixNl_of_ne_none {l : Line} (h : l.newline ≠ .none) : fixNl l = l := by
+  unfold fixNl; simp [h]
+
+/-- (statement changed with the model: the line handed out is `fixNl` of the line consumed, was: the line itself) -/
 theorem getLine_some {p : Parser} {l : Line} {p' : Parser} (h : p.getLine = (some l, p')) :
-    p.s.rest = l :: p'.s.rest ∧ p.s.eof = false ∧ p.s.bad = false ∧ p'.s.bad = false := by
+    (∃ l0, p.s.rest = l0 :: p'.s.rest ∧ l = fixNl l0) ∧ p.s.eof = false ∧ p.s.bad = false ∧ p'.s.bad = false := by
   unfold Parser.getLine at h
   rcases PStream.getLine_cases p.s with ⟨l', h1, h2, h3, h4, h5⟩ | ⟨h1, _⟩
   · split at h
@@ -63,10 +79,16 @@ theorem getLine_some {p : Parser} {l : Line} {p' : Parser} (h : p.getLine = (som
       simp only [Prod.mk.injEq, Option.some.injEq] at h h1
       obtain ⟨rfl, rfl⟩ := h
       subst h1
-      exact ⟨h4, h2, h3, h5⟩
+      exact ⟨⟨l2, h4, rfl⟩, h2, h3, h5⟩
   · split at h
     · simp at h
     · rename_i l2 s' heq; rw [heq] at h1; simp at h1
+
+/-- every line `Parser::get_line` returns ends in LF or CR LF (never `.none`) -/
+theorem getLine_ne_none {p : Parser} {l : Line} {p' : Parser} (h : p.getLine = (some l, p')) :
+    l.newline ≠ .none := by
+  obtain ⟨⟨l0, _, rfl⟩, _⟩ := getLine_some h
+  exact fixNl_ne_none l0
 
 theorem getLine_none {p : Parser} {p' : Parser} (h : p.getLine = (none, p')) :
     p'.s.rest = p.s.rest ∧ (p.s.eof = false → p.s.bad = false → p'.s.eof = true) := by
@@ -86,7 +108,8 @@ theorem getLine_none {p : Parser} {p' : Parser} (h : p.getLine = (none, p')) :
 /-- one `get_line` consumes exactly one line -/
 theorem getLine_length {p : Parser} {l : Line} {p' : Parser} (h : p.getLine = (some l, p')) :
     p'.s.rest.length + 1 = p.s.rest.length := by
-  rw [(getLine_some h).1]; simp
+  obtain ⟨⟨l0, h0, _⟩, _⟩ := getLine_some h
+  rw [h0]; simp
 
 /-- `get_line` never makes the stream longer -/
 theorem getLine_snd_le (p : Parser) : p.getLine.2.s.rest.length ≤ p.s.rest.length := by
@@ -556,16 +579,11 @@ theorem map_ok {ε α β} {f : α → β} {x : Except ε α} {y : β} (h : x.map
 /-! ### the header scan: the pieces of `headerStep` -/
 
 /-- the unified part of `headerStep` -/
-def hdrUnified (last : Format) (st : HState) (p : Patch) (line : Bytes) : Option (HState × Bool) × HState :=
+def hdrUnified (_last : Format) (st : HState) (p : Patch) (line : Bytes) : Option (HState × Bool) × HState :=
   if p.format = .unknown ∨ p.format = .unified then
-    if last = .unified ∧ (startsWith line "+" ∨ startsWith line "-" ∨ startsWith line " ") then
-      (some ({ st with patch := { p with oldPath := p.newPath, newPath := p.oldPath,
-                                         oldTime := p.newTime, newTime := p.oldTime, format := .unified },
-                       foundFirstHunk := true }, false), st)
-    else
-      let (ok, h') := parseUnifiedRange st.hunk line
-      let st' := { st with hunk := h' }
-      if ok then (some ({ st' with thisLooks := .unified, ltfh := st.lines }, true), st') else (none, st')
+    let (ok, h') := parseUnifiedRange st.hunk line
+    let st' := { st with hunk := h' }
+    if ok then (some ({ st' with thisLooks := .unified, ltfh := st.lines }, true), st') else (none, st')
   else (none, st)
 
 /-- the normal part of `headerStep` -/
@@ -614,6 +632,12 @@ theorem headerStep_eq (st0 : HState) (line : Bytes) (strip : Int) :
       (let last := st0.thisLooks
        let st := { st0 with lines := st0.lines + 1, thisLooks := Format.unknown }
        let p := st.patch
+       if (p.format = .unknown ∨ p.format = .unified) ∧ last = .unified ∧
+           (startsWith line "+" ∨ startsWith line "-" ∨ startsWith line " ") then
+         .ok ({ st with patch := { p with oldPath := p.newPath, newPath := p.oldPath,
+                                          oldTime := p.newTime, newTime := p.oldTime, format := .unified },
+                        foundFirstHunk := true }, false)
+       else
        match (match (if last != .context then consumeStr (str "*** ") line else none) with
               | some r => some r
               | none => consumeStr (str "+++ ") line) with
@@ -655,10 +679,7 @@ theorem hdrUnified_good {L S} (last : Format) (st : HState) (p : Patch) (line : 
   · split
     · refine ⟨hg, ?_⟩
       intro res hr; simp only [Option.some.injEq] at hr; subst hr; exact hg
-    · split
-      · refine ⟨hg, ?_⟩
-        intro res hr; simp only [Option.some.injEq] at hr; subst hr; exact hg
-      · exact ⟨hg, by intro res hr; simp at hr⟩
+    · exact ⟨hg, by intro res hr; simp at hr⟩
   · exact ⟨hg, by intro res hr; simp at hr⟩
 
 theorem hdrNormal_good {L S} (last : Format) (st : HState) (p : Patch) (line : Bytes) (hg : Good L S st) :
@@ -724,6 +745,10 @@ theorem headerStep_inv (st : HState) (line : Bytes) (strip : Int) (st' : HState)
     (h : headerStep st line strip = .ok (st', c)) : StepInv st st' c := by
   rw [headerStep_eq] at h
   simp only [] at h
+  split at h
+  · simp only [Except.ok.injEq, Prod.mk.injEq] at h
+    obtain ⟨rfl, rfl⟩ := h
+    exact ⟨rfl, Or.inl rfl⟩
   split at h
   · obtain ⟨a, _, ha⟩ := map_ok h
     simp only [Prod.mk.injEq] at ha
@@ -848,16 +873,10 @@ theorem hdrUnified_good2 {L G lt F} (last : Format) (st : HState) (p : Patch) (l
   simp only []
   split
   · split
-    · rename_i hl
-      refine ⟨hg, ?_⟩
+    · refine ⟨hg, ?_⟩
       intro res hr; simp only [Option.some.injEq] at hr; subst hr
-      exact ⟨hg.1, hg.2.1, Or.inl hg.2.2.1, Or.inl hg.2.2.2.2,
-        Or.inr ⟨rfl, rfl, by rw [hl.1]; decide, hg.2.2.1, Or.inl rfl⟩⟩
-    · split
-      · refine ⟨hg, ?_⟩
-        intro res hr; simp only [Option.some.injEq] at hr; subst hr
-        exact ⟨hg.1, hg.2.1, Or.inr (Or.inl hg.1), Or.inr hg.1, Or.inl hg.2.2.2.1⟩
-      · exact ⟨hg, by intro res hr; simp at hr⟩
+      exact ⟨hg.1, hg.2.1, Or.inr (Or.inl hg.1), Or.inr hg.1, Or.inl hg.2.2.2.1⟩
+    · exact ⟨hg, by intro res hr; simp at hr⟩
   · exact ⟨hg, by intro res hr; simp at hr⟩
 
 theorem hdrNormal_good2 {L G lt F} (last : Format) (st : HState) (p : Patch) (line : Bytes) (hg : Good2 L G lt F st) :
@@ -940,6 +959,12 @@ theorem headerStep_inv2 (st : HState) (line : Bytes) (strip : Int) (st' : HState
     (h : headerStep st line strip = .ok (st', c)) : StepInv2 st st' c := by
   rw [headerStep_eq] at h
   simp only [] at h
+  split at h
+  · rename_i hl
+    simp only [Except.ok.injEq, Prod.mk.injEq] at h
+    obtain ⟨rfl, rfl⟩ := h
+    exact ⟨rfl, Or.inl ⟨rfl, Or.inl rfl⟩, Or.inl rfl,
+      Or.inr ⟨rfl, rfl, by rw [hl.2.1]; decide, rfl, Or.inl rfl⟩⟩
   split at h
   · obtain ⟨a, _, ha⟩ := map_ok h
     simp only [Prod.mk.injEq] at ha
